@@ -75,7 +75,7 @@ sweep(void)
 	for (int i = 0; i < MAXU; i++)
 		if (uaio_used[i] && KDONE(i) && KRESULT(i) == 0 && !noted[i]) {
 			noted[i]   = 1;
-			nni_msg *m = nni_aio_get_msg(&uaio[i]);
+			nni_msg *m = nni_aio_get_msg(&uaio_at(i));
 			int      c = uctx[i];
 			CHECK(m != NULL && m->tag >= 1 && m->tag <= nw, "a received message is one that was published");
 			CHECK(m->tag > last_tag_delivered[c], "a context receives each message at most once and in publication order");
@@ -85,7 +85,7 @@ sweep(void)
 			    "received message bytes are exactly the published bytes");
 			CHECK(!nni_msg_shared(m), "received message is not shared with another context");
 			nni_msg_free(m);
-			nni_aio_set_msg(&uaio[i], NULL);
+			nni_aio_set_msg(&uaio_at(i), NULL);
 		}
 }
 static void
@@ -97,7 +97,7 @@ monitor(void)
 		check_queue(c);
 	for (int i = 0; i < MAXU; i++)
 		if (uaio_used[i])
-			CHECK(env_aio_completed(&uaio[i]) <= 1, "receive completes at most once");
+			CHECK(env_aio_completed(&uaio_at(i)) <= 1, "receive completes at most once");
 	if (!sock_closed)
 		CHECK(nni_atomic_get_bool(&sock.readable.p_raised) == !nni_lmq_empty(&sock.master.lmq),
 		    "C15: receive poll state mirrors whether the socket's buffer holds a message");
@@ -219,7 +219,7 @@ ev_wire_k(int p, int k)
 		int got_now = 0;
 		for (int i = 0; i < MAXU; i++)
 			if (uaio_used[i] && uctx[i] == c && KDONE(i) && KRESULT(i) == 0 && !noted[i] &&
-			    nni_aio_get_msg(&uaio[i]) != NULL && nni_aio_get_msg(&uaio[i])->tag == nw)
+			    nni_aio_get_msg(&uaio_at(i)) != NULL && nni_aio_get_msg(&uaio_at(i))->tag == nw)
 				got_now = 1;
 		int present = q_has(c, nw) + got_now;
 		CHECK(present <= 1, "a context gets a published message at most once");
@@ -250,8 +250,8 @@ ev_recv(int c, int i, int blocking)
 	bool can = !nni_lmq_empty(&ctxs[c]->lmq);
 	kuaio_prepare(i, blocking);
 	uctx[i] = c;
-	env_aio_submit(&uaio[i]);
-	sub0_ctx_recv(ctxs[c], &uaio[i]);
+	env_aio_submit(&uaio_at(i));
+	sub0_ctx_recv(ctxs[c], &uaio_at(i));
 	if (can)
 		CHECK(KDONE(i) && KRESULT(i) == 0, "receive succeeds at once when a message is buffered");
 	else if (!blocking)
@@ -339,7 +339,6 @@ ev_close(void)
 void
 harness(void)
 {
-	memset(&sock, 0, sizeof(sock));
 	sub0_sock_init(&sock, NULL);
 #ifdef RECVBUF0
 	{
